@@ -11,6 +11,7 @@ require (
 )
 
 require (
+	github.com/cnotch/apirouter v0.0.0-20200731232942-89e243a791f3 // indirect
 	github.com/cnotch/loader v0.0.0-20200405015128-d9d964d09439 // indirect
 	github.com/emitter-io/address v1.0.0 // indirect
 	github.com/gorilla/websocket v1.4.2 // indirect
